@@ -4,7 +4,7 @@
 
 use crate::prng::Rng;
 
-pub const TEMPLATES: [(&str, &str, usize); 10] = [
+pub const TEMPLATES: [(&str, &str, usize); 13] = [
     (
         "list-map-fold",
         r#"data List[A] { Nil, Cons(x: A, xs: List[A]) }
@@ -183,6 +183,76 @@ def main(n: i64, a: i64, b: i64): i64 {
 }
 "#,
         3,
+    ),
+    (
+        "name-reuse",
+        r#"data Pair[A, B] { Tup(x: A, y: B) }
+data List[A] { Nil, Cons(x: A, xs: List[A]) }
+def f(p: Pair[i64, i64], q: Pair[i64, i64]): i64 {
+  let a: i64 = p.case[i64, i64] { Tup(x, y) => x };
+  q.case[i64, i64] { Tup(x, y) => (x * 100) + (y + a) }
+}
+def g(x: i64, l: List[i64]): i64 {
+  if 12 < l.case[i64] { Nil => 0, Cons(x0, t) => (let x: i64 = x + 1; x0 + x) } { 1 } else { 0 }
+}
+def h(x: i64, l: List[i64]): i64 {
+  l.case[i64] { Nil => 0, Cons(x0, t) => (let x: i64 = x + 1; (let x1: i64 = x0 * 2; x1 + x)) }
+}
+def k(p: Pair[i64, i64]): i64 {
+  let a0: i64 = p.case[i64, i64] { Tup(x, y) => (let x: i64 = y; x + 1) };
+  let x0: i64 = (let a0: i64 = a0 * 2; a0 + 1);
+  p.case[i64, i64] { Tup(y, x) => ((x0 * 1000) + (x * 10)) + (y + a0) }
+}
+def m(l: List[Pair[i64, i64]], acc: i64): i64 {
+  l.case[Pair[i64, i64]] { Nil => acc, Cons(x, xs) => m(xs, (x.case[i64, i64] { Tup(x, xs) => x - xs }) + acc) }
+}
+def main(n: i64, a: i64, b: i64): i64 {
+  println_i64(f(Tup(a, b), Tup(n, 2)));
+  println_i64(g(a, Cons(b, Nil)));
+  println_i64(h(n, Cons(a, Cons(b, Nil))));
+  println_i64(k(Tup(a, n)));
+  println_i64(m(Cons(Tup(a, b), Cons(Tup(n, a), Nil)), b));
+  0
+}
+"#,
+        3,
+    ),
+    (
+        "two-labels",
+        r#"data List[A] { Nil, Cons(x: A, xs: List[A]) }
+def scan(l: List[i64], neg :cns i64, zero :cns i64): i64 {
+  l.case[i64] { Nil => 0,
+                Cons(x, xs) => if x == 0 { goto zero(100) } else { if x < 0 { goto neg(200) } else { x + scan(xs, neg, zero) } } }
+}
+def classify(l: List[i64]): i64 {
+  label neg { 1000 + (label zero { scan(l, neg, zero) }) }
+}
+def both(a: i64, j :cns i64, k :cns i64, b: i64): i64 {
+  if a < b { goto j(a) } else { if a == b { goto k(b + 1) } else { a - b } }
+}
+def main(n: i64, a: i64, b: i64): i64 {
+  println_i64(classify(Cons(1, Cons(2, Cons(n, Nil)))));
+  println_i64(classify(Cons(a, Cons(b, Cons(3, Nil)))));
+  println_i64(classify(Cons(1, Cons(0 - n, Cons(0, Nil)))));
+  println_i64(label p { 50000 + (label q { 700 + both(a, q, p, b) }) });
+  label r { 10 + (label s { 20 + both(n, r, s, 5) }) }
+}
+"#,
+        3,
+    ),
+    (
+        "ctor-order",
+        r#"data Res[A] { Ok(x: A), Err, Warn(x: A, w: i64) }
+def main(n: i64, a: i64): i64 {
+  println_i64(find(n, a).case[i64] { Ok(v) => v, Err => 0 - 1, Warn(v, w) => v + w });
+  println_i64(find(n + 1, a).case[i64] { Warn(v, w) => v - w, Ok(v) => v * 2, Err => 7 });
+  println_i64(wrap(n).case[Res[i64]] { Err => 3, Ok(r) => r.case[i64] { Err => 4, Ok(v) => v, Warn(v, w) => w }, Warn(r, w) => w });
+  0
+}
+def find(n: i64, a: i64): Res[i64] { if n == 3 { Ok(a) } else { if n < 3 { Err } else { Warn(a, n) } } }
+def wrap(n: i64): Res[Res[i64]] { if n < 2 { Err } else { if n < 6 { Ok(find(n, n * 11)) } else { Warn(find(n - 4, n), n) } } }
+"#,
+        2,
     ),
 ];
 
